@@ -28,7 +28,10 @@ Kinds == <<
   "q = p'/srv' pf'/{u}'\n", "s2 = 'plain' \"text\"\n", "$(reload!)\n", "![reset!]\n", "f!()\n",                               \* 46-50
   "m = f!(a)(b)\n", "$(echo! a) or f!(x)\n", "k = pf'{u}' 'x'\n", "print('a', p'b')\n", "h = range?.index?\n",                 \* 51-55
   "match x:\n    case 'lit' | \"s\":\n        pass\n    case {'k': 1}:\n        pass\n", "d = {'k': 'v'}['k']\n", "open(p'/e' pf'{n}.c', 'r')\n",  \* 56-58
-  "x = f'{a}' 'b' \"c\"\n", "import a.b as c, d\n"                                                                        \* 59-60
+  "x = f'{a}' 'b' \"c\"\n", "import a.b as c, d\n",                                                                       \* 59-60
+  \* 61-63: a block whose last line continues with a backslash INSIDE brackets; 64-66: debug fields, a macro before one, a plain continuation
+  "if c:\n    x = (1 + \\\n         2)\n", "for i in y:\n    $[echo a \\\n      b]\n", "def f():\n    return [1, \\\n  2]\n",
+  "y = f'{x = }' f'''{z\n =}'''\n", "with! ctx2:\n    q\nv = f'{u = }'\n", "x = 1 if a else \\\n    2\n"
 >>
 VARIABLE seq
 Init == seq = <<>>
